@@ -516,6 +516,12 @@ class Interp:
                 return
             st.iv[k] = nw
             a = st.aff.get(k)
+            if a is not None and a[0] == 'mul' and nw[0] > 0 and nw[0] % a[2] != 0:
+                # a positive multiple of c is at least c (and the next multiple of c above the bound)
+                lo2 = ((nw[0] + a[2] - 1) // a[2]) * a[2]
+                if lo2 <= nw[1]:
+                    nw = (lo2, nw[1])
+                    st.iv[k] = nw
             if a is not None:
                 if a[0] == 'add':
                     self.refine(st, a[1], (nw[0] - a[2], nw[1] - a[2]))
@@ -686,6 +692,10 @@ class Interp:
                     lk, rc = self.opkey(rv['l']), op_const(rv['r'])
                     if lk is not None and lk[0] != 'c' and rc is not None:
                         st.aff[('t', l, 0)] = ('add', lk, rc if base == 'Add' else -rc)
+                if base == 'Mul':
+                    lk, rc = self.opkey(rv['l']), op_const(rv['r'])
+                    if lk is not None and lk[0] != 'c' and rc is not None and rc > 0:
+                        st.aff[('t', l, 0)] = ('mul', lk, rc)
                 if base in ('Add', 'Mul') and irng is not None and irng[1] >= (1 << 63) and self.is_mem(st, rv['l'], small_ok=(base == 'Mul')) \
                         and self.is_mem(st, rv['r'], small_ok=True):
                     st.mem.add(('t', l, 0))
@@ -994,6 +1004,10 @@ class Interp:
                     if bo is not None and re.search(r'Vec::<T, A>::resize$', name) and len(args) >= 2:
                         saved_len = self.eval_op(st, args[1])
                     if bo is not None and saved_len is None and ck is not None and self.eng.len_preserving(ck):
+                        saved_len = st.iv.get(('cell', 'len', bo))
+                    if bo is not None and saved_len is None and re.search(
+                            r'IndexMut<.*>>::index_mut$|IndexMut<I> for \[T\]>::index_mut$|DerefMut>::deref_mut$|::as_mut_slice$|::iter_mut$|'
+                            r'::copy_from_slice$|::swap$|::fill$|Rc4::process$|::as_mut_ptr$', name):
                         saved_len = st.iv.get(('cell', 'len', bo))
                     for tgt in self.ref_targets(al):
                         self.kill(st, tgt)
